@@ -134,6 +134,15 @@ static void blk_groups(void) {
 		for (int i = 0; i < np; i++) for (int s = 0; s < NSC; s++) { if (!vh_next()) continue; SM9_Z256_POINT R; uint8_t got[65], exp[65]; char w[100]; snprintf(w, sizeof w, "k=%s,P%d", HX(SC[s].b, 32), i); sm9_z256_t k; to_z(k, SC[s].b); int el = mq(exp, 65, "g1mul %s %s", HX(SC[s].b, 32), hxn(ps[i], g1_len(ps[i])));
 			sm9_z256_point_mul(&R, k, &PT[i]); g1_ser(got, &R); cmp_pt("g1", "mul", got, exp, el, g1_len(got), w);
 			if (i == 0) { sm9_z256_point_mul_generator(&R, k); g1_ser(got, &R); cmp_pt("g1", "mul_generator", got, exp, el, g1_len(got), w); } } }
+	/* scalars N-k, k = 1..300: the signed-window recodings of these end in steps where the accumulator meets the table entry it is about to add
+	   (the doubling case of the mixed addition) */
+	if (vh_block_begin("g1-n-minus-small")) { const SM9_Z256_POINT *G = sm9_z256_generator(); uint8_t gs[65]; g1_ser(gs, G); SM9_Z256_POINT Q7; { sm9_z256_t k7; to_z(k7, SC[9].b); sm9_z256_point_mul(&Q7, k7, G); } uint8_t q7s[65]; g1_ser(q7s, &Q7);
+		for (int k = 1; k <= 300; k++) { if (!vh_next()) continue; uint8_t kb[32]; add_small(kb, NB, -k); sm9_z256_t kk; to_z(kk, kb); SM9_Z256_POINT R; uint8_t got[65], exp[65]; char w[100]; snprintf(w, sizeof w, "N-%d", k);
+			int el = mq(exp, 65, "g1mul %s %s", HX(kb, 32), hxn(gs, 65)); sm9_z256_point_mul_generator(&R, kk); g1_ser(got, &R); cmp_pt("g1", "mul_generator", got, exp, el, g1_len(got), w); sm9_z256_point_mul(&R, kk, G); g1_ser(got, &R); cmp_pt("g1", "mul", got, exp, el, g1_len(got), w);
+			if (k <= 80 || vh_thorough) { el = mq(exp, 65, "g1mul %s %s", HX(kb, 32), hxn(q7s, 65)); sm9_z256_point_mul(&R, kk, &Q7); g1_ser(got, &R); cmp_pt("g1", "mul", got, exp, el, g1_len(got), w); } } }
+	if (vh_block_begin("g2-n-minus-small")) { const SM9_Z256_TWIST_POINT *G = sm9_z256_twist_generator(); uint8_t gs[129]; g2_ser(gs, G);
+		for (int k = 1; k <= (vh_thorough ? 300 : 100); k++) { if (!vh_next()) continue; uint8_t kb[32]; add_small(kb, NB, -k); sm9_z256_t kk; to_z(kk, kb); SM9_Z256_TWIST_POINT R; uint8_t got[129], exp[129]; char w[100]; snprintf(w, sizeof w, "N-%d", k);
+			int el = mq(exp, 129, "g2mul %s %s", HX(kb, 32), hxn(gs, 129)); sm9_z256_twist_point_mul_generator(&R, kk); g2_ser(got, &R); cmp_pt("g2", "mul_generator", got, exp, el, g2_len(got), w); sm9_z256_twist_point_mul(&R, kk, G); g2_ser(got, &R); cmp_pt("g2", "mul", got, exp, el, g2_len(got), w); } }
 	if (vh_block_begin("g2")) { SM9_Z256_TWIST_POINT PT[8]; int np = 0; const SM9_Z256_TWIST_POINT *G = sm9_z256_twist_generator(); PT[np++] = *G; sm9_z256_twist_point_dbl(&PT[np], G); np++; sm9_z256_twist_point_neg(&PT[np], G); np++; { sm9_z256_t k; to_z(k, SC[9].b); sm9_z256_twist_point_mul(&PT[np], k, G); np++; } sm9_z256_twist_point_set_infinity(&PT[np]); np++; { sm9_z256_t k; to_z(k, SC[13].b); sm9_z256_twist_point_mul(&PT[np], k, &PT[3]); np++; }
 		uint8_t ps[8][129]; for (int i = 0; i < np; i++) g2_ser(ps[i], &PT[i]);
 		for (int i = 0; i < np; i++) for (int j = 0; j < np; j++) { if (!vh_next()) continue; SM9_Z256_TWIST_POINT R; uint8_t got[129], exp[129]; char w[40]; snprintf(w, sizeof w, "Q%d,Q%d", i, j); int el = mq(exp, 129, "g2add %s %s", hxn(ps[i], g2_len(ps[i])), hxn(ps[j], g2_len(ps[j])));
